@@ -624,7 +624,7 @@ func childSeq(f *vh.Flags, o *vh.Out) {
 	for i := 0; i < np; i++ {
 		pdirCase(genName(r.Fork(500000+i)), o)
 	}
-	for i := 0; i < f.N; i++ {
+	for i := 0; i < f.N && o.Stats["oracle_fail"] < 5; i++ { // a few failures are enough (each may cost a time-out)
 		seqCase(r.Fork(i), o)
 	}
 }
